@@ -2,7 +2,12 @@
    Statements only; proofs live in Proofs/. *)
 Require Import Cirbo.Model.Base Cirbo.Model.Gate Cirbo.Model.Den Cirbo.Model.Circuit Cirbo.Model.Eval Cirbo.Model.Sem.
 Require Import Cirbo.Generated.GateTypes.
+Require Import Cirbo.Model.WF.
 Require Import Cirbo.Proofs.OpFacts Cirbo.Proofs.SemFacts Cirbo.Proofs.EvalFacts.
+Require Import Cirbo.Proofs.EvalComplete Cirbo.Proofs.EvalStack Cirbo.Proofs.EvalEntry
+        Cirbo.Proofs.TruthTable Cirbo.Proofs.SemInvariance Cirbo.Proofs.SemRename Cirbo.Proofs.WFSound.
+Require Import Cirbo.Proofs.TraverseInv.
+Require Import Coq.Sorting.Permutation.
 
 (* (a) the generated operator tables are the fixed Boolean function of every gate type,
    for every arity; they raise exactly where the denotation is undefined *)
@@ -38,3 +43,311 @@ Theorem C01_stack_evaluation_sound : forall fuel c a outs d,
   (forall o, In o (match outs with Some o => o | None => outputs c end) ->
              exists v, dget d o = Some v /\ Eval c a o v).
 Proof. exact evaluate_circuit_sound. Qed.
+
+(* ------------------------------------------------------------------------------------ *)
+(* the generated operators accept exactly the arities of the denotation, also on
+   three-valued arguments *)
+Theorem C01_operators_accept : forall g vs,
+  den_accepts g (length vs) = true -> exists v, operator_of g vs = Ok v.
+Proof. exact operator_of_accepts. Qed.
+
+Theorem C01_operators_reject : forall g vs,
+  den_accepts g (length vs) = false -> operator_of g vs = Err (arity_err g).
+Proof. exact operator_of_rejects. Qed.
+
+(* the semantics exists (and by C01_semantics_functional is unique) at every gate of a
+   well-formed circuit with accepted arities, for every (partial) assignment *)
+Theorem C01_semantics_exists : forall c a, WF c -> arity_ok c ->
+  forall l, has_gate c l = true -> exists v, Eval c a l v.
+Proof. exact Eval_exists. Qed.
+
+(* arity_ok is necessary for that: a gate with a rejected arity has no value *)
+Theorem C01_semantics_needs_arity : forall c a l g v,
+  dget (gates c) l = Some g -> gtyp g <> INPUT -> Eval c a l v ->
+  den_accepts (gtyp g) (length (gops g)) = true.
+Proof. exact Eval_needs_arity. Qed.
+
+(* (b) whole-circuit evaluation is total and reports exactly the semantics at exactly the gates *)
+Theorem C01_full_evaluation_complete : forall c a, WF c -> arity_ok c -> assigns_inputs_only c a ->
+  exists d, evaluate_full_circuit c a = Ok d /\
+            forall l, has_gate c l = true -> exists v, dget d l = Some v /\ Eval c a l v.
+Proof. exact evaluate_full_circuit_complete. Qed.
+
+Theorem C01_full_evaluation_exact : forall c a, WF c -> arity_ok c -> assigns_inputs_only c a ->
+  exists d, evaluate_full_circuit c a = Ok d /\
+            forall l v, dget d l = Some v <-> (has_gate c l = true /\ Eval c a l v).
+Proof. exact evaluate_full_circuit_exact. Qed.
+
+(* (b) the stack evaluator: the fuel 2 * (|outs| + sum of arities) + 1 used by evaluate_circuit
+   (and any larger fuel) is adequate - never OutOfFuel, no other error - when the requested
+   outputs exist *)
+Theorem C01_stack_evaluation_fuel_adequate : forall c a outs fuel,
+  WF c -> arity_ok c -> assigns_inputs_only c a ->
+  (forall o, In o (requested c outs) -> has_gate c o = true) ->
+  eval_fuel c (requested c outs) <= fuel ->
+  exists d, evaluate_circuit_fuel fuel c a outs = Ok d.
+Proof. exact evaluate_circuit_fuel_adequate. Qed.
+
+(* ... and reports the semantics at every requested output, the semantics or Undefined at every
+   other gate, and has exactly the gates as keys *)
+Theorem C01_stack_evaluation_complete : forall c a outs,
+  WF c -> arity_ok c -> assigns_inputs_only c a ->
+  (forall o, In o (requested c outs) -> has_gate c o = true) ->
+  exists d, evaluate_circuit c a outs = Ok d /\
+    (forall o, In o (requested c outs) -> exists v, dget d o = Some v /\ Eval c a o v) /\
+    (forall l v, dget d l = Some v -> Eval c a l v \/ v = U) /\
+    (forall l, has_gate c l = true <-> dmem d l = true).
+Proof. exact evaluate_circuit_complete. Qed.
+
+(* ... and every gate that is neither an input nor reachable from the requested outputs along
+   operand edges is reported Undefined ("unreachable part will be Undefined") *)
+Theorem C01_stack_evaluation_unreached_undefined : forall fuel c a outs d l,
+  assigns_inputs_only c a -> evaluate_circuit_fuel fuel c a outs = Ok d ->
+  has_gate c l = true -> ~ In l (inputs c) -> ~ reach (ops_of c) (requested c outs) l ->
+  dget d l = Some U.
+Proof. exact evaluate_circuit_unreached. Qed.
+
+(* all entry points return the same values: whole circuit, stack, outputs dictionary ... *)
+Theorem C01_entry_points_agree : forall c a, WF c -> arity_ok c -> assigns_inputs_only c a ->
+  exists dfull dstack r,
+    evaluate_full_circuit c a = Ok dfull /\ evaluate_circuit c a None = Ok dstack /\
+    evaluate_circuit_outputs c a = Ok r /\
+    forall o, In o (outputs c) ->
+      exists v, dget dfull o = Some v /\ dget dstack o = Some v /\ dget r o = Some v /\ Eval c a o v.
+Proof. exact entry_points_agree. Qed.
+
+(* ... and the positional ones (evaluate; evaluate_at is its i-th component) *)
+Theorem C01_evaluate_agrees_with_full : forall c vals,
+  WF c -> arity_ok c -> length (inputs c) <= length vals ->
+  exists dfull vs, evaluate_full_circuit c (vec_assignment c vals) = Ok dfull /\ evaluate c vals = Ok vs /\
+    Forall2 (fun o v => dget dfull o = Some v) (outputs c) vs.
+Proof. exact evaluate_agrees_with_full. Qed.
+
+Theorem C01_evaluate_at_is_component : forall c vals i o,
+  WF c -> arity_ok c -> length (inputs c) <= length vals -> nth_error (outputs c) i = Some o ->
+  exists vs v, evaluate c vals = Ok vs /\ evaluate_at c vals i = Ok v /\ nth_error vs i = Some v.
+Proof. exact evaluate_at_nth. Qed.
+
+(* (b) evaluate_circuit_outputs: keys are the outputs, values the semantics *)
+Theorem C01_outputs_evaluation_complete : forall c a,
+  WF c -> arity_ok c -> assigns_inputs_only c a ->
+  exists r, evaluate_circuit_outputs c a = Ok r /\
+    (forall o, In o (outputs c) -> exists v, dget r o = Some v /\ Eval c a o v) /\
+    (forall l, dmem r l = true -> In l (outputs c)).
+Proof. exact evaluate_circuit_outputs_complete. Qed.
+
+(* the assignment evaluate / evaluate_at / the truth tables build from a positional vector:
+   defined iff there are at least as many values as inputs; on duplicate-free inputs it is the
+   association list  combine inputs vals, so the i-th input gets the i-th value *)
+Theorem C01_zip_inputs_short : forall ins vals acc,
+  length vals < length ins -> zip_inputs ins vals acc = Err PyIndexError.
+Proof. exact zip_inputs_short. Qed.
+
+Theorem C01_zip_inputs : forall c vals, WF c -> length (inputs c) <= length vals ->
+  zip_inputs (inputs c) vals [] = Ok (vec_assignment c vals).
+Proof. exact zip_inputs_wf. Qed.
+
+Theorem C01_zip_inputs_keys : forall c vals, length (inputs c) <= length vals ->
+  dkeys (vec_assignment c vals) = inputs c.
+Proof. exact vec_assignment_keys. Qed.
+
+Theorem C01_zip_inputs_nth : forall c vals i l, WF c ->
+  nth_error (inputs c) i = Some l -> dget (vec_assignment c vals) l = nth_error vals i.
+Proof. exact vec_assignment_nth. Qed.
+
+(* without duplicate-freeness: keys and the origin of every value *)
+Theorem C01_zip_inputs_general : forall ins vals acc a, zip_inputs ins vals acc = Ok a ->
+  forall l v, dget a l = Some v ->
+    (dget acc l = Some v /\ ~ In l ins) \/
+    exists i, nth_error ins i = Some l /\ nth_error vals i = Some v.
+Proof. exact zip_inputs_val. Qed.
+
+(* (b) evaluate: the list of semantic values of the outputs (repeated outputs repeat) *)
+Theorem C01_evaluate_complete : forall c vals, WF c -> arity_ok c -> length (inputs c) <= length vals ->
+  exists vs, evaluate c vals = Ok vs /\ Forall2 (Eval c (vec_assignment c vals)) (outputs c) vs.
+Proof. exact evaluate_complete. Qed.
+
+Theorem C01_evaluate_sound : forall c vals vs, WF c -> evaluate c vals = Ok vs ->
+  length (inputs c) <= length vals /\ Forall2 (Eval c (vec_assignment c vals)) (outputs c) vs.
+Proof. exact evaluate_sound. Qed.
+
+Theorem C01_evaluate_short : forall c vals,
+  length vals < length (inputs c) -> evaluate c vals = Err PyIndexError.
+Proof. exact evaluate_short. Qed.
+
+(* (b) evaluate_at: the semantic value of the i-th output *)
+Theorem C01_evaluate_at_complete : forall c vals i o,
+  WF c -> arity_ok c -> length (inputs c) <= length vals -> nth_error (outputs c) i = Some o ->
+  exists v, evaluate_at c vals i = Ok v /\ Eval c (vec_assignment c vals) o v.
+Proof. exact evaluate_at_complete. Qed.
+
+Theorem C01_evaluate_at_out_of_range : forall c vals i, WF c -> length (inputs c) <= length vals ->
+  nth_error (outputs c) i = None -> evaluate_at c vals i = Err GateDoesntExistError.
+Proof. exact evaluate_at_out_of_range. Qed.
+
+(* itertools.product((False, True), repeat=n): 2^n vectors; the i-th one has length n and is the
+   binary expansion of i, most significant bit first; every n-bit vector is listed *)
+Theorem C01_all_bool_vectors_length : forall n, length (all_bool_vectors n) = 2 ^ n.
+Proof. exact abv_length. Qed.
+
+Theorem C01_all_bool_vectors_nth : forall n i bs, nth_error (all_bool_vectors n) i = Some bs ->
+  length bs = n /\ val_be bs = i.
+Proof. exact abv_nth. Qed.
+
+Theorem C01_all_bool_vectors_bits : forall n i bs j,
+  nth_error (all_bool_vectors n) i = Some bs -> j < n ->
+  nth j bs false = Nat.testbit i (n - 1 - j).
+Proof. exact abv_nth_testbit. Qed.
+
+Theorem C01_all_bool_vectors_complete : forall bs,
+  nth_error (all_bool_vectors (length bs)) (val_be bs) = Some bs.
+Proof. exact abv_complete. Qed.
+
+(* (b) get_truth_table: row j, column i is the semantic value of output j under the i-th vector *)
+Theorem C01_truth_table_complete : forall c, WF c -> arity_ok c ->
+  exists tt, get_truth_table c = Ok tt /\ length tt = length (outputs c) /\
+    forall j o i x, nth_error (outputs c) j = Some o ->
+      nth_error (all_bool_vectors (length (inputs c))) i = Some x ->
+      exists row v, nth_error tt j = Some row /\ length row = 2 ^ length (inputs c) /\
+                    nth_error row i = Some v /\ Eval c (bool_assignment c x) o v.
+Proof. exact get_truth_table_complete. Qed.
+
+(* (b) get_gates_truth_table: one column per gate (exactly the gates), listing its semantic
+   values under all vectors in the same order *)
+Theorem C01_gates_truth_table_complete : forall c, WF c -> arity_ok c ->
+  exists t, get_gates_truth_table c = Ok t /\
+    (forall l, has_gate c l = true ->
+       exists col, dget t l = Some col /\
+         Forall2 (fun x v => Eval c (bool_assignment c x) l v)
+                 (all_bool_vectors (length (inputs c))) col) /\
+    (forall l, dmem t l = true -> has_gate c l = true).
+Proof. exact get_gates_truth_table_complete. Qed.
+
+(* Boolean vectors give total assignments, so all of the above values are inj of a Boolean
+   (C01_semantics_composes_denotations applies) *)
+Theorem C01_bool_vector_total : forall c bs, WF c -> length (inputs c) <= length bs ->
+  total_on c (vec_assignment c (map inj bs)).
+Proof. exact vec_assignment_total. Qed.
+
+(* (c) invariance.  The semantics depends on the gate map and the assignment only as finite
+   maps: insertion order, the input/output lists, users index and blocks do not matter *)
+Theorem C01_semantics_extensional : forall c c' a a' l v,
+  (forall k, dget (gates c) k = dget (gates c') k) -> (forall k, aval a k = aval a' k) ->
+  (Eval c a l v <-> Eval c' a' l v).
+Proof. exact Eval_ext. Qed.
+
+Theorem C01_semantics_gate_order : forall c c' a l v,
+  NoDup (dkeys (gates c)) -> Permutation (gates c) (gates c') ->
+  (Eval c a l v <-> Eval c' a l v).
+Proof. exact Eval_gate_order. Qed.
+
+Theorem C01_full_evaluation_gate_order : forall c c' a a',
+  WF c -> WF c' -> arity_ok c -> same_gates c c' -> same_assignment a a' ->
+  assigns_inputs_only c a -> assigns_inputs_only c' a' ->
+  exists d d', evaluate_full_circuit c a = Ok d /\ evaluate_full_circuit c' a' = Ok d' /\
+               forall l, dget d l = dget d' l.
+Proof. exact evaluate_full_circuit_order. Qed.
+
+(* (c) an injective renaming of every label (keys, operands, inputs, outputs, users, block
+   members, assignment keys) transports the semantics, in both directions *)
+Theorem C01_semantics_label_renaming : forall (r : label -> label),
+  (forall x y, r x = r y -> x = y) ->
+  forall c a l v, Eval c a l v <-> Eval (rename_circuit r c) (rename_assignment r a) (r l) v.
+Proof. exact Eval_rename. Qed.
+
+Theorem C01_semantics_label_renaming_image : forall (r : label -> label),
+  (forall x y, r x = r y -> x = y) ->
+  forall c a l' v, Eval (rename_circuit r c) (rename_assignment r a) l' v -> exists l, l' = r l.
+Proof. exact Eval_rename_image. Qed.
+
+(* (c) at the level of the entry points.  Insertion order: two well-formed circuits with the same
+   gate map as a finite map and the same input / output lists have the same evaluate results and
+   the same truth table *)
+Theorem C01_evaluate_gate_order : forall c c' vals, WF c -> WF c' -> arity_ok c ->
+  same_gates c c' -> inputs c = inputs c' -> outputs c = outputs c' ->
+  evaluate c' vals = evaluate c vals.
+Proof. exact evaluate_gate_order. Qed.
+
+Theorem C01_truth_table_gate_order : forall c c', WF c -> WF c' -> arity_ok c ->
+  same_gates c c' -> inputs c = inputs c' -> outputs c = outputs c' ->
+  get_truth_table c' = get_truth_table c.
+Proof. exact get_truth_table_gate_order. Qed.
+
+(* Labels: injective renaming preserves well-formedness; evaluate and the truth table of the
+   renamed circuit are EQUAL to the original ones; evaluate_full_circuit reports at r l the
+   value the original reports at l and has no other keys *)
+Theorem C01_renaming_preserves_WF : forall (r : label -> label),
+  (forall x y, r x = r y -> x = y) -> forall c, WF c -> WF (rename_circuit r c).
+Proof. exact WF_rename. Qed.
+
+Theorem C01_evaluate_label_renaming : forall (r : label -> label),
+  (forall x y, r x = r y -> x = y) ->
+  forall c vals, WF c -> arity_ok c -> evaluate (rename_circuit r c) vals = evaluate c vals.
+Proof. exact evaluate_rename. Qed.
+
+Theorem C01_truth_table_label_renaming : forall (r : label -> label),
+  (forall x y, r x = r y -> x = y) ->
+  forall c, WF c -> arity_ok c -> get_truth_table (rename_circuit r c) = get_truth_table c.
+Proof. exact get_truth_table_rename. Qed.
+
+Theorem C01_full_evaluation_label_renaming : forall (r : label -> label),
+  (forall x y, r x = r y -> x = y) ->
+  forall c a, WF c -> arity_ok c -> assigns_inputs_only c a ->
+  exists d d', evaluate_full_circuit c a = Ok d /\
+               evaluate_full_circuit (rename_circuit r c) (rename_assignment r a) = Ok d' /\
+               (forall l, dget d' (r l) = dget d l) /\
+               (forall l', dmem d' l' = true -> exists l, l' = r l).
+Proof. exact evaluate_full_circuit_rename. Qed.
+
+(* ------------------------------------------------------------------------------------ *)
+(* non-vacuity and (c) "duplicated operands / outputs need no special case": a well-formed
+   circuit with a shared gate, an AND with a duplicated operand, a dead gate, an unused input,
+   an output that is an input and a duplicated output; all entry points on it *)
+Definition C01_ex : circuit :=
+  mkCircuit ["a"; "b"; "u"] ["o"; "a"; "o"]
+    [("a", mkGate INPUT []); ("b", mkGate INPUT []); ("u", mkGate INPUT []);
+     ("n", mkGate NOT ["a"]); ("d", mkGate AND ["n"; "n"]); ("x", mkGate XOR ["n"; "b"; "d"]);
+     ("o", mkGate OR ["d"; "x"]); ("dead", mkGate ALWAYS_TRUE [])]
+    [("a", ["n"]); ("n", ["d"; "d"; "x"]); ("b", ["x"]); ("d", ["x"; "o"]); ("x", ["o"])] [].
+
+Example C01_ex_wf : WF C01_ex /\ arity_ok C01_ex.
+Proof. split; [apply wfb_sound; vm_compute; reflexivity|apply arity_okb_sound; vm_compute; reflexivity]. Qed.
+
+Example C01_ex_runs :
+  evaluate_full_circuit C01_ex [("a", F); ("b", T)]
+    = Ok [("a", F); ("b", T); ("u", U); ("dead", T); ("n", T); ("d", T); ("x", T); ("o", T)]
+  /\ evaluate_circuit C01_ex [("a", F); ("b", T)] None
+    = Ok [("a", F); ("b", T); ("u", U); ("n", T); ("d", T); ("x", T); ("o", T); ("dead", U)]
+  /\ evaluate_circuit_outputs C01_ex [("a", F); ("b", T)] = Ok [("o", T); ("a", F)]
+  /\ evaluate C01_ex [F; T; U] = Ok [T; F; T]
+  /\ evaluate_at C01_ex [F; T; U] 2 = Ok T
+  /\ assigns_inputs_only C01_ex [("a", F); ("b", T)].
+Proof.
+  repeat (split; [vm_compute; reflexivity|]).
+  intros l. unfold dmem; simpl.
+  destruct (leqb_spec l "a") as [->|_]; [simpl; auto|].
+  destruct (leqb_spec l "b") as [->|_]; [simpl; auto|discriminate].
+Qed.
+
+(* the AND gate with the duplicated operand n,n has the value of n: no special case *)
+Example C01_ex_duplicated_operand : forall a v,
+  Eval C01_ex a "n" v -> Eval C01_ex a "d" v.
+Proof.
+  intros a v H. eapply EvalGate with (vs := [v; v]); [reflexivity|discriminate| |destruct v; reflexivity].
+  repeat constructor; exact H.
+Qed.
+
+Example C01_ex_truth_table :
+  get_truth_table C01_ex = Ok [[T; T; T; T; F; F; T; T]; [F; F; F; F; T; T; T; T]; [T; T; T; T; F; F; T; T]].
+Proof. vm_compute; reflexivity. Qed.
+
+Example C01_all_bool_vectors_3 :
+  all_bool_vectors 2 = [[false; false]; [false; true]; [true; false]; [true; true]].
+Proof. reflexivity. Qed.
+
+(* renaming: an injective renaming (prefixing) applied to the example *)
+Example C01_ex_renamed :
+  evaluate_full_circuit (rename_circuit (String "p") C01_ex) (rename_assignment (String "p") [("a", F); ("b", T)])
+  = Ok [("pa", F); ("pb", T); ("pu", U); ("pdead", T); ("pn", T); ("pd", T); ("px", T); ("po", T)]
+  /\ (forall x y, String "p" x = String "p" y -> x = y).
+Proof. split; [vm_compute; reflexivity|intros x y H; injection H; auto]. Qed.
